@@ -538,17 +538,56 @@ func c16Forged(r *core.Result, seed int64) {
 			r.Fail("parse-accepts:"+what, "ParseSecrets accepted malformed input (%s) as %d parts", what, len(got))
 		}
 		if err == nil {
-			// whatever is accepted must be consistent: re-encoding gives the same secrets
+			// whatever is accepted must be exactly what the builder produces for the parsed parts
 			b := cmt.NewBuilder()
 			for _, p := range got {
 				b.AddPart(p)
 			}
 			re, e2 := b.Secrets()
-			if e2 == nil && len(re) > len(in) {
-				r.Fail("parse-inflate:"+what, "accepted parse re-encodes to more elements than the input")
+			if e2 != nil {
+				r.Fail("parse-accepts-what-builder-refuses:"+what, "ParseSecrets accepted %s as %d parts, a layout the builder refuses (%v)", what, len(got), e2)
+			} else if !sameInts(re, in) {
+				r.Fail("parse-not-inverse:"+what, "accepted parse of %s re-encodes to a different sequence (%d elements, input %d)", what, len(re), len(in))
 			}
 		}
 	}
+	// every sequence of up to 7 elements over a small alphabet, against a reference parser written from the format
+	// description: one or more parts [n, n elements], at most PartsCap parts, nothing left over
+	alphabet := []*big.Int{big.NewInt(0), big1, big2, big.NewInt(3), big.NewInt(7)}
+	var seq []*big.Int
+	var walk func(depth int)
+	walk = func(depth int) {
+		if len(seq) > 0 {
+			wantParts, valid := refParseSecrets(seq, int(cmt.PartsCap), int(cmt.MaxPartSize))
+			var got [][]*big.Int
+			var err error
+			if p, msg, _ := guard(func() { got, err = cmt.ParseSecrets(seq) }); p {
+				r.Fail("parse-panic:small-sequence", "ParseSecrets panicked on %v: %s", seq, msg)
+				return
+			}
+			r.Count("small_sequences_parsed", 1)
+			switch {
+			case valid && err != nil:
+				r.Fail("parse-refuses-valid", "ParseSecrets refuses the valid encoding %v: %v", seq, err)
+			case !valid && err == nil:
+				r.Fail("parse-accepts-malformed", "ParseSecrets accepted the malformed sequence %v as %d parts", seq, len(got))
+			case valid && !sameParts(got, wantParts):
+				r.Fail("parse-wrong-parts", "ParseSecrets(%v) returned %d parts, the format says %d", seq, len(got), len(wantParts))
+			}
+			if valid {
+				r.Count("small_sequences_valid", 1)
+			}
+		}
+		if depth == 7 {
+			return
+		}
+		for _, a := range alphabet {
+			seq = append(seq, a)
+			walk(depth + 1)
+			seq = seq[:len(seq)-1]
+		}
+	}
+	walk(0)
 	huge := []*big.Int{
 		new(big.Int).Lsh(big1, 63), new(big.Int).Sub(new(big.Int).Lsh(big1, 64), big1), new(big.Int).Lsh(big1, 64),
 		new(big.Int).Add(new(big.Int).Lsh(big1, 64), big.NewInt(2)), new(big.Int).Lsh(big1, 200),
@@ -649,4 +688,34 @@ func c16Shift(r *core.Result) {
 	}
 	r.NonTrivial = r.Obs["shifted_pairs"] > 1000
 	r.Sample = map[string]any{"kind": "boundary-shift", "separators": len(seps), "shifted_pairs": r.Obs["shifted_pairs"], "distinct_inputs_hashed": r.Obs["digests"]}
+}
+
+func sameInts(a, b []*big.Int) bool {
+	if len(a) != len(b) {
+		return false
+	}
+	for i := range a {
+		if a[i].Cmp(b[i]) != 0 {
+			return false
+		}
+	}
+	return true
+}
+
+// refParseSecrets: the de-commitment layout is a sequence of 1..partsCap parts, each a length n (0 <= n <= maxPart) followed by n values.
+func refParseSecrets(in []*big.Int, partsCap, maxPart int) ([][]*big.Int, bool) {
+	var parts [][]*big.Int
+	pos := 0
+	for pos < len(in) {
+		n := in[pos]
+		if n.Sign() < 0 || !n.IsInt64() || n.Int64() > int64(maxPart) || pos+1+int(n.Int64()) > len(in) {
+			return nil, false
+		}
+		parts = append(parts, in[pos+1:pos+1+int(n.Int64())])
+		pos += 1 + int(n.Int64())
+		if len(parts) > partsCap {
+			return nil, false
+		}
+	}
+	return parts, len(parts) > 0
 }
